@@ -1,11 +1,60 @@
-/* vercheck: calls the real ovni_version_check_str(argv[1]); exit 0 when the
- * library accepts the version, otherwise the library aborts. */
+/* vercheck: calls the real ovni_version_check_str().
+ *   vercheck <version>            exit 0 when the library accepts the version,
+ *                                 otherwise the library aborts.
+ *   vercheck -t N ITER R v1 v2 .. N threads leave a barrier together and each
+ *                                 checks the accepted versions v1.. ITER times
+ *                                 (round robin); if R is not "-", thread 0
+ *                                 checks R instead (it must be refused: every
+ *                                 call that returns is reported). */
+#include <pthread.h>
 #include <stdio.h>
+#include <stdlib.h>
+#include <string.h>
 #include "ovni.h"
+
+static pthread_barrier_t bar;
+static int iters, nvers;
+static char **vers;
+static const char *refuse;
+
+static void *
+worker(void *arg)
+{
+	long id = (long) arg;
+	pthread_barrier_wait(&bar);
+	for (int i = 0; i < iters; i++) {
+		if (id == 0 && refuse != NULL) {
+			ovni_version_check_str(refuse);
+			printf("ACCEPTED-INCOMPATIBLE %s iteration %d\n", refuse, i);
+			fflush(stdout);
+			_exit(3);
+		}
+		ovni_version_check_str(vers[(i + (int) id) % nvers]);
+	}
+	return NULL;
+}
 
 int
 main(int argc, char *argv[])
 {
+	if (argc >= 6 && strcmp(argv[1], "-t") == 0) {
+		int n = atoi(argv[2]);
+		iters = atoi(argv[3]);
+		refuse = strcmp(argv[4], "-") == 0 ? NULL : argv[4];
+		vers = argv + 5;
+		nvers = argc - 5;
+		pthread_t th[64];
+		if (n < 1 || n > 64)
+			return 98;
+		pthread_barrier_init(&bar, NULL, (unsigned) n);
+		for (long i = 0; i < n; i++)
+			if (pthread_create(&th[i], NULL, worker, (void *) i) != 0)
+				return 98;
+		for (int i = 0; i < n; i++)
+			pthread_join(th[i], NULL);
+		printf("ACCEPTED-ALL threads=%d iters=%d\n", n, iters);
+		return 0;
+	}
 	if (argc != 2)
 		return 98;
 	ovni_version_check_str(argv[1]);
